@@ -17,9 +17,12 @@ use crate::sim::*;
 use crate::wrap::{Wrap, WrapShared};
 
 /// index -> signal
-pub const N_SIG: usize = 10;
+pub const N_SIG: usize = 11;
+/// index of SIGCHLD (the one signal of the universe the kernel itself sends: a child exits)
+pub const CHLD: usize = 10;
 /// signals nothing else in this process uses (not ALRM/PROF: the watchdogs; not TERM/INT: the
-/// harness must stay killable; not CHLD/PIPE: the driver's own children and pipes)
+/// harness must stay killable; not PIPE: the driver's pipes; CHLD only reaches a worker from the
+/// children the program itself spawns)
 pub const UNIVERSE: [(i32, Signal); N_SIG] = [
     (libc::SIGUSR1, Signal::SIGUSR1),
     (libc::SIGUSR2, Signal::SIGUSR2),
@@ -31,6 +34,7 @@ pub const UNIVERSE: [(i32, Signal); N_SIG] = [
     (libc::SIGQUIT, Signal::SIGQUIT),
     (libc::SIGXFSZ, Signal::SIGXFSZ),
     (libc::SIGXCPU, Signal::SIGXCPU),
+    (libc::SIGCHLD, Signal::SIGCHLD),
 ];
 
 #[allow(clippy::declare_interior_mutable_const)]
@@ -77,6 +81,8 @@ pub struct SigGlobal {
     /// hits the model expects since then
     pub expected: [u32; N_SIG],
     pub used: bool,
+    /// a child of ours exited and its SIGCHLD has not been handed out yet: its pid
+    pub chld_pid: Option<u32>,
 }
 
 fn to_signals(s: &[u8]) -> Vec<Signal> {
@@ -270,6 +276,9 @@ pub fn sig_change(sim: &Sim, id: Id, how: u8, sigs: &[u8]) {
             k.configured = after;
         }
         for i in deliver {
+            if i as usize == CHLD {
+                st.sig.chld_pid = None;
+            }
             st.sig.expected[i as usize] += 1;
         }
     }
@@ -278,6 +287,66 @@ pub fn sig_change(sim: &Sim, id: Id, how: u8, sigs: &[u8]) {
         return;
     }
     check(sim, ["add_signals", "remove_signals", "set_signals"][how.min(2) as usize]);
+}
+
+/// A child process of ours exits: the kernel sends SIGCHLD with the child as sender.
+pub fn spawn_child(sim: &Sim) {
+    if !sim.st.borrow().sig.used {
+        return;
+    }
+    reap(sim);
+    {
+        let st = sim.st.borrow();
+        // one kernel-sent instance at a time, and not on top of a process-directed one that
+        // is still pending (they would coalesce into the older one)
+        if st.sig.chld_pid.is_some() {
+            return;
+        }
+        for id in live_sources(&st) {
+            if let Some(K::Sig(k)) = st.srcs.get(&id).map(|s| &s.k) {
+                if k.pending[CHLD] & 2 != 0 {
+                    return;
+                }
+            }
+        }
+    }
+    let pid = unsafe { libc::fork() };
+    if pid < 0 {
+        return;
+    }
+    if pid == 0 {
+        unsafe { libc::_exit(7) };
+    }
+    {
+        let mut st = sim.st.borrow_mut();
+        let mut blocked = false;
+        for id in live_sources(&st) {
+            if let Some(K::Sig(k)) = st.srcs.get_mut(&id).map(|s| &mut s.k) {
+                if k.configured.contains(&(CHLD as u8)) {
+                    k.pending[CHLD] |= 2;
+                    blocked = true;
+                }
+            }
+        }
+        if blocked {
+            st.sig.chld_pid = Some(pid as u32);
+        } else {
+            st.sig.expected[CHLD] += 1;
+        }
+    }
+    // wait until it is gone (the signal has been sent by then), then reap it
+    unsafe {
+        let mut info: libc::siginfo_t = std::mem::zeroed();
+        while libc::waitid(libc::P_PID, pid as libc::id_t, &mut info, libc::WEXITED | libc::WNOWAIT) != 0 {
+            if *libc::__errno_location() != libc::EINTR {
+                break;
+            }
+        }
+        let mut st = 0;
+        while libc::waitpid(pid, &mut st, 0) < 0 && *libc::__errno_location() == libc::EINTR {}
+    }
+    sim.probe("signal_from_exited_child");
+    check(sim, "child exit");
 }
 
 pub fn raise(sim: &Sim, sig: u8, process_directed: bool) {
@@ -332,8 +401,14 @@ fn on_signal(id: Id, ev: calloop::signals::Event, tag: &mut Tag) {
                         // another source of the batch) was not pending at the wait
                         k.pending_at_wait[i] &= k.pending[i];
                         let (pid, uid) = unsafe { (libc::getpid() as u32, libc::getuid()) };
-                        if ev.pid() != pid || ev.uid() != uid {
-                            viol = Some(("signal.wrong_info", format!("signal {:?} reported sender pid {} uid {}, expected {} {}", ev.signal(), ev.pid(), ev.uid(), pid, uid)));
+                        // SIGCHLD for an exited child is sent by the kernel on the child's behalf:
+                        // the sender is the child (instances coalesce: either one may be reported)
+                        let child = if i == CHLD { st.sig.chld_pid } else { None };
+                        if (ev.pid() != pid && Some(ev.pid()) != child) || ev.uid() != uid {
+                            viol = Some(("signal.wrong_info", format!("signal {:?} reported sender pid {} uid {}, expected {} {} (exited child: {:?})", ev.signal(), ev.pid(), ev.uid(), pid, uid, child)));
+                        }
+                        if child.is_some() && Some(ev.pid()) == child {
+                            st.sig.chld_pid = None;
                         }
                     }
                     Some(i) => viol = Some(("signal.unexpected_event", format!("the callback received {:?} but no instance of it is pending for this source (configured: {})", ev.signal(), k.configured.contains(&(i as u8))))),
@@ -390,6 +465,9 @@ pub fn source_dropped(st: &mut St, id: Id) {
         }
     }
     for i in deliver {
+        if i == CHLD {
+            st.sig.chld_pid = None;
+        }
         st.sig.expected[i] += 1;
     }
 }
